@@ -761,7 +761,7 @@ func builtinGreaterThan(_ *lisp.LEnv, args *lisp.LVal) *lisp.LVal {
 		if !ok {
 			return lisp.ErrorConditionf(FailedConstraint, "Value cannot be compared")
 		}
-		if comparison >= compareTo {
+		if !(compareTo > comparison) { // negated so that a NaN is refused
 			return lisp.ErrorConditionf(FailedConstraint, "Supplied value was less than the allowed value")
 		}
 		return lisp.Nil()
@@ -780,7 +780,7 @@ func builtinGreaterThanOrEqual(_ *lisp.LEnv, args *lisp.LVal) *lisp.LVal {
 		if !ok {
 			return lisp.ErrorConditionf(FailedConstraint, "Value cannot be compared")
 		}
-		if comparison > compareTo {
+		if !(compareTo >= comparison) { // negated so that a NaN is refused
 			return lisp.ErrorConditionf(FailedConstraint, "Supplied value %v was less than the allowed value %v", compareTo, comparison)
 		}
 		return lisp.Nil()
@@ -799,7 +799,7 @@ func builtinLessThan(_ *lisp.LEnv, args *lisp.LVal) *lisp.LVal {
 		if !ok {
 			return lisp.ErrorConditionf(FailedConstraint, "Value cannot be compared")
 		}
-		if comparison <= compareTo {
+		if !(compareTo < comparison) { // negated so that a NaN is refused
 			return lisp.ErrorConditionf(FailedConstraint, "Supplied value was greater than the allowed value")
 		}
 		return lisp.Nil()
@@ -818,7 +818,7 @@ func builtinLessThanOrEqual(_ *lisp.LEnv, args *lisp.LVal) *lisp.LVal {
 		if !ok {
 			return lisp.ErrorConditionf(FailedConstraint, "Value cannot be compared")
 		}
-		if comparison < compareTo {
+		if !(compareTo <= comparison) { // negated so that a NaN is refused
 			return lisp.ErrorConditionf(FailedConstraint, "Supplied value was greater than the allowed value")
 		}
 		return lisp.Nil()
@@ -868,7 +868,7 @@ func builtinPositive(_ *lisp.LEnv, _ *lisp.LVal) *lisp.LVal {
 		if !ok {
 			return lisp.ErrorConditionf(FailedConstraint, "Value cannot be compared")
 		}
-		if compareTo <= 0 {
+		if !(compareTo > 0) { // negated so that a NaN is refused
 			return lisp.ErrorConditionf(FailedConstraint, "Supplied value was not positive")
 		}
 		return lisp.Nil()
@@ -883,7 +883,7 @@ func builtinNegative(_ *lisp.LEnv, _ *lisp.LVal) *lisp.LVal {
 		if !ok {
 			return lisp.ErrorConditionf(FailedConstraint, "Value cannot be compared")
 		}
-		if compareTo >= 0 {
+		if !(compareTo < 0) { // negated so that a NaN is refused
 			return lisp.ErrorConditionf(FailedConstraint, "Supplied value was not negative")
 		}
 		return lisp.Nil()
